@@ -61,10 +61,23 @@ func shake(name string, bits int, f func() sha3.ShakeHash, sum func(out, msg []b
 func cshake(bits int, N, S []byte) *kind {
 	rate := 200 - 2*bits/8
 	f := func() sha3.ShakeHash {
+		// the constructor gets private copies which are overwritten as soon as it returns:
+		// the caller may reuse its N and S buffers, the instance (also after Reset and in
+		// clones) must keep the customization it was created with
+		nc, sc := append([]byte{}, N...), append([]byte{}, S...)
+		var h sha3.ShakeHash
 		if bits == 128 {
-			return sha3.NewCShake128(N, S)
+			h = sha3.NewCShake128(nc, sc)
+		} else {
+			h = sha3.NewCShake256(nc, sc)
 		}
-		return sha3.NewCShake256(N, S)
+		for i := range nc {
+			nc[i] ^= 0xFF
+		}
+		for i := range sc {
+			sc[i] ^= 0xFF
+		}
+		return h
 	}
 	return &kind{name: fmt.Sprintf("cSHAKE%d(N=%dB,S=%dB)", bits, len(N), len(S)), rate: rate, outLen: bits / 4, newShake: f,
 		newHash: func() hash.Hash { return f() },
